@@ -72,3 +72,14 @@ Definition Build_IterVectorsMut := mkVecs.
 Definition set_IterVectorsMut_lower (s : IterVecs) (v : Z) := mkVecs v (v_upper s) (v_layout s).
 Definition set_IterVectorsMut_upper (s : IterVecs) (v : Z) := mkVecs (v_lower s) v (v_layout s).
 Definition set_IterVectorsMut_layout (s : IterVecs) (v : option Layout) := mkVecs (v_lower s) (v_upper s) v.
+
+(* ---------- swap.rs (data mode): `self` is the model's matrix, a pointer into self.data is an element index ---------- *)
+From Matreex Require Export Model.Ops.
+(* what the size / stride accessors see of a matrix *)
+Definition mview {A} (m : matrix A) : GMatrix := Build_Matrix (m_order m) (m_shape m) (zlen (m_data m)).
+(* ptr::swap_nonoverlapping(x, y, count) inside one buffer: both ranges inside it (pointer arithmetic contract) and
+   disjoint (the function's own contract), then the two ranges exchanged *)
+Definition swap_nonoverlapping_m {A} (data : list A) (x y count : Z) : res (list A) :=
+  if negb ((x + count <=? zlen data) && (y + count <=? zlen data)) then UB UBPtr else
+  if negb ((x + count <=? y) || (y + count <=? x)) then UB UBOverlap else
+  Val (splice (splice data x (zfirstn count (zskipn y data))) y (zfirstn count (zskipn x data))).
